@@ -1,8 +1,529 @@
+//! C12 — push combinators (`dfir_pipes::push::*`, `pull::send_push`) deliver the right items and honour
+//! the push protocol for every pattern of downstream `Pending`.
+//!
+//! The real combinators are built over `CheckPush` downstreams (see `harness.rs`) and driven by a
+//! protocol-obeying driver. Downstream answers are either explored exhaustively (a DFS over every
+//! Done/Pending choice with a budget of k Pendings per downstream and per phase) or read from random
+//! scripts. The recorded call history is then judged by `judge` below: reference semantics per downstream
+//! (`fams.rs`) plus the protocol rules of the property text.
+
+mod fams;
+mod harness;
+
+use fams::{Exp, Expect, FAMS, Fam, In};
+use harness::*;
+use vcommon::{Args, Reporter, Tier, Value, hash_of, json};
+
+// ---------------------------------------------------------------------------------------------
+// Oracle
+
+#[derive(Default)]
+struct Tally {
+    runs: Vec<u64>,
+    nontrivial: Vec<u64>,
+    pend_runs: Vec<u64>,
+    repoll_ready_after_done: u64,
+    repoll_finalize_after_done: u64,
+    ready_polled_after_finalize_began: u64,
+    send_with_older_done_but_last_poll_pending: u64,
+    downstream_pending_answers: u64,
+    inner_pending_answers: u64,
+    top_pending_returns: u64,
+    items_delivered: u64,
+    got: [Vec<V>; MAXD],
+    side: Vec<V>,
+}
+
+fn is_subseq(small: &[V], big: &[V]) -> bool {
+    let mut it = big.iter();
+    small.iter().all(|x| it.any(|y| y == x))
+}
+
+fn is_subbag(small: &[V], big: &[V]) -> bool {
+    // both sorted
+    let mut j = 0;
+    for x in small {
+        while j < big.len() && big[j] < *x {
+            j += 1;
+        }
+        if j >= big.len() || big[j] != *x {
+            return false;
+        }
+        j += 1;
+    }
+    true
+}
+
+fn show(v: &[V]) -> String {
+    let parts: Vec<String> = v.iter().map(|&(a, b)| if b == NIL { format!("{a}") } else { format!("({a},{b})") }).collect();
+    format!("[{}]", parts.join(","))
+}
+
+fn classify(exp: &Expect, got: &[V]) -> Option<(&'static str, String)> {
+    match exp {
+        Expect::Skip => None,
+        Expect::Seq(e) => {
+            if e[..] == got[..] {
+                return None;
+            }
+            let kind = if is_subseq(got, e) {
+                "items-lost"
+            } else if is_subseq(e, got) {
+                "items-extra"
+            } else {
+                let (mut a, mut b) = (e.clone(), got.to_vec());
+                a.sort();
+                b.sort();
+                if a == b { "items-reordered" } else { "items-wrong" }
+            };
+            Some((kind, format!("delivered {} but the reference semantics prescribes {}", show(got), show(e))))
+        }
+        Expect::Bag(e) => {
+            let (mut a, mut b) = (e.clone(), got.to_vec());
+            a.sort();
+            b.sort();
+            if a == b {
+                return None;
+            }
+            let kind = if is_subbag(&b, &a) {
+                "items-lost"
+            } else if is_subbag(&a, &b) {
+                "items-extra"
+            } else {
+                "items-wrong"
+            };
+            Some((kind, format!("delivered {} but the reference semantics prescribes (in any order) {}", show(got), show(e))))
+        }
+    }
+}
+
+fn panic_class(msg: &str) -> String {
+    let s: String = msg.chars().take(60).map(|c| if c.is_ascii_alphanumeric() || c == ' ' || c == '_' { c } else { '.' }).collect();
+    s.trim().replace(' ', "_")
+}
+
+fn case_json(fam: &Fam, inp: &In, h: &Harness) -> Value {
+    let down: Vec<Value> = (0..fam.nd)
+        .map(|d| {
+            let s = &h.down[d];
+            json!({"sticky": s.sticky, "ready": s.rec_ready.to_str(s.rpos), "fin": s.rec_fin.to_str(s.fpos)})
+        })
+        .collect();
+    json!({"engine": "mon_push", "family": fam.name, "variant": inp.variant, "prev": inp.prev, "items": inp.items,
+           "down": down, "inner": h.inner_rec.to_str(h.inner_pos),
+           "legend": "ready/fin/inner: answer per consuming call, 1 = Pending, exhausted = Done; sticky: a Done stays Done until a send"})
+}
+
+/// Judge one finished run from the recorded history. Returns true if the run was non-trivial.
+fn judge(rep: &mut Reporter, t: &mut Tally, fi: usize, inp: &In, outcome: &Outcome, exp: &Exp) -> bool {
+    let fam = &FAMS[fi];
+    let nd = fam.nd;
+    H.with(|h| {
+        let h = h.borrow();
+        let mut viol: Vec<(String, String)> = vec![];
+        let mut add = |k: String, w: String| {
+            if !viol.iter().any(|(kk, _)| *kk == k) {
+                viol.push((k, w));
+            }
+        };
+        let mut ready_ok = [false; MAXD];
+        let mut last_ready_done = [false; MAXD];
+        let mut fin_called = [false; MAXD];
+        let mut fin_done = [false; MAXD];
+        let mut nsend = [0usize; MAXD];
+        let mut pend_since_send = [false; MAXD];
+        let mut pend_between = false;
+        let mut fin_pend = false;
+        let mut any_pend = false;
+        let mut pend_in_call = false;
+        for g in t.got.iter_mut() {
+            g.clear();
+        }
+        t.side.clear();
+        for (idx, ev) in h.log.iter().enumerate() {
+            match *ev {
+                Ev::TopBegin(_) => pend_in_call = false,
+                Ev::TopEnd(op, done) => {
+                    if !done {
+                        t.top_pending_returns += 1;
+                        if !pend_in_call {
+                            add(format!("spurious-pending|{}", op.name()), format!("event #{idx}: the combinator's {} returned Pending although no downstream (and no inner future/stream) answered Pending during that call", op.name()));
+                        }
+                    }
+                    if op == Op::Fin && done {
+                        for d in 0..nd {
+                            if !fin_done[d] {
+                                if fin_called[d] {
+                                    add(format!("finalize-not-done-after-last-item|d{d}"), format!("the combinator reported Done but downstream {d} never answered poll_finalize -> Done after its last item"));
+                                } else {
+                                    add(format!("finalize-missing|d{d}"), format!("the combinator reported Done but poll_finalize was never called on downstream {d}"));
+                                }
+                            }
+                        }
+                    }
+                }
+                Ev::DReady(d, done) => {
+                    let d = d as usize;
+                    if fin_called[d] {
+                        t.ready_polled_after_finalize_began += 1;
+                    }
+                    if done {
+                        if ready_ok[d] {
+                            t.repoll_ready_after_done += 1;
+                        }
+                        ready_ok[d] = true;
+                        last_ready_done[d] = true;
+                    } else {
+                        t.downstream_pending_answers += 1;
+                        pend_in_call = true;
+                        any_pend = true;
+                        last_ready_done[d] = false;
+                        if nsend[d] > 0 {
+                            pend_since_send[d] = true;
+                        }
+                    }
+                }
+                Ev::DSend(d, v) => {
+                    let d = d as usize;
+                    if !ready_ok[d] {
+                        add(format!("send-without-ready|d{d}"), format!("event #{idx}: start_send({}) on downstream {d} without a poll_ready -> Done on it since its previous send", show(&[v])));
+                    } else if !last_ready_done[d] {
+                        t.send_with_older_done_but_last_poll_pending += 1;
+                    }
+                    if fin_called[d] {
+                        add(format!("send-after-finalize|d{d}"), format!("event #{idx}: start_send({}) on downstream {d} after poll_finalize had been called on it", show(&[v])));
+                    }
+                    if pend_since_send[d] {
+                        pend_between = true;
+                    }
+                    pend_since_send[d] = false;
+                    nsend[d] += 1;
+                    ready_ok[d] = false;
+                    last_ready_done[d] = false;
+                    fin_done[d] = false;
+                    t.got[d].push(v);
+                    t.items_delivered += 1;
+                }
+                Ev::DFin(d, done) => {
+                    let d = d as usize;
+                    if fin_done[d] {
+                        t.repoll_finalize_after_done += 1;
+                    }
+                    fin_called[d] = true;
+                    if done {
+                        fin_done[d] = true;
+                    } else {
+                        t.downstream_pending_answers += 1;
+                        pend_in_call = true;
+                        fin_pend = true;
+                        any_pend = true;
+                    }
+                }
+                Ev::Inner(p) => {
+                    if p {
+                        t.inner_pending_answers += 1;
+                        pend_in_call = true;
+                    }
+                }
+                Ev::Side(v) => t.side.push(v),
+            }
+        }
+        let mut evals = 1 + 2 * nd as u64; // progress/termination + (items, protocol) per downstream
+        match outcome {
+            Outcome::Hang(op) => add(format!("no-progress|{}", op.name()), format!("the driver's step cap ({}) was exceeded while repeating {}", h.cap, op.name())),
+            Outcome::Panic(msg) => add(format!("panic|{}", panic_class(msg)), format!("the combinator panicked although the driver obeyed the protocol: {msg}")),
+            Outcome::Done => {
+                for d in 0..nd {
+                    if let Some((k, w)) = classify(&exp.down[d], &t.got[d]) {
+                        add(format!("{k}|d{d}"), format!("downstream {d}: {w}"));
+                    }
+                }
+                if let Some(s) = &exp.side {
+                    evals += 1;
+                    if s[..] != t.side[..] {
+                        add("side-effects-wrong".into(), format!("closure/buffer saw {} but the inputs were {}", show(&t.side), show(s)));
+                    }
+                }
+            }
+        }
+        for (k, w) in &h.custom {
+            add(k.clone(), w.clone());
+        }
+        rep.evals(evals);
+        t.runs[fi] += 1;
+        if any_pend {
+            t.pend_runs[fi] += 1;
+        }
+        let nontrivial = pend_between || fin_pend;
+        if nontrivial {
+            t.nontrivial[fi] += 1;
+            let key = (fam.name, inp, [h.down[0].rec_ready, h.down[1].rec_ready, h.down[2].rec_ready], [h.down[0].rec_fin, h.down[1].rec_fin, h.down[2].rec_fin],
+                       [h.down[0].sticky, h.down[1].sticky, h.down[2].sticky], h.inner_rec);
+            rep.nontrivial(hash_of(&key));
+            if t.nontrivial[fi] % 257 == 1 {
+                rep.sample(|| case_json(fam, inp, &h));
+            }
+        }
+        if !viol.is_empty() {
+            let case = case_json(fam, inp, &h);
+            for (k, w) in viol {
+                let site = if fam.variants > 1 { format!("{}#v{}", fam.name, inp.variant) } else { fam.name.to_string() };
+                rep.violation(&format!("C12|{site}|{k}"), &format!("{site}: {w}"), case.clone());
+            }
+        }
+        nontrivial
+    })
+}
+
+// ---------------------------------------------------------------------------------------------
+// Workloads
+
+fn cap_for(n_items: usize, pendings: usize) -> usize {
+    3 * (n_items + pendings) + 16
+}
+
+/// Exhaustively explore every Done/Pending answer pattern (budget k per downstream and phase, k_inner for the
+/// inner futures) for one input. Returns the number of runs (leaves). `max_leaves` truncates (Miri only).
+fn explore(rep: &mut Reporter, t: &mut Tally, fi: usize, inp: &In, sticky: bool, k: u8, k_inner: u8, max_leaves: usize) -> u64 {
+    let fam = &FAMS[fi];
+    let exp = (fam.expect)(inp);
+    let budget = fam.nd * 2 * k as usize + if fam.inner { k_inner as usize } else { 0 };
+    let cap = cap_for(inp.items.len(), budget);
+    let mode = Mode::Explore { sticky, k, k_inner: if fam.inner { k_inner } else { 0 } };
+    H.with(|h| h.borrow_mut().clear_stack());
+    let mut leaves = 0u64;
+    loop {
+        H.with(|h| h.borrow_mut().begin(&mode, cap));
+        let out = (fam.run)(inp);
+        if H.with(|h| h.borrow().diverged) {
+            eprintln!("harness failure: run of {} diverged from its recorded choice prefix (non-determinism)", fam.name);
+            std::process::exit(3);
+        }
+        judge(rep, t, fi, inp, &out, &exp);
+        leaves += 1;
+        if leaves as usize >= max_leaves || !H.with(|h| h.borrow_mut().backtrack()) {
+            break;
+        }
+    }
+    leaves
+}
+
+fn run_script(rep: &mut Reporter, t: &mut Tally, fi: usize, inp: &In, down: [DScr; MAXD], inner: Bits) -> bool {
+    let fam = &FAMS[fi];
+    let exp = (fam.expect)(inp);
+    let pend: u32 = down.iter().take(fam.nd).map(|d| d.ready.count() + d.fin.count()).sum::<u32>() + inner.count();
+    let cap = cap_for(inp.items.len(), pend as usize);
+    H.with(|h| h.borrow_mut().begin(&Mode::Script { down, inner }, cap));
+    let out = (fam.run)(inp);
+    judge(rep, t, fi, inp, &out, &exp)
+}
+
+/// All sequences over {0,1,2} of length <= nmax.
+fn seqs(nmax: usize) -> Vec<Vec<i64>> {
+    let mut out = vec![vec![]];
+    let mut layer: Vec<Vec<i64>> = vec![vec![]];
+    for _ in 0..nmax {
+        let mut next = vec![];
+        for s in &layer {
+            for x in 0..3 {
+                let mut v = s.clone();
+                v.push(x);
+                next.push(v);
+            }
+        }
+        out.extend(next.iter().cloned());
+        layer = next;
+    }
+    out
+}
+
+/// (n_max, k) for the bounded-exhaustive part, by family shape, flavour and tier.
+fn bounds(fam: &Fam, sticky: bool, tier: Tier) -> (usize, u8) {
+    let thorough = tier == Tier::Thorough;
+    match (fam.nd, sticky) {
+        (0, _) => (4, 0),
+        (1, _) => (4, if thorough { 3 } else { 2 }),
+        (2, true) => (4, if thorough { 3 } else { 2 }),
+        (2, false) => {
+            if thorough {
+                (3, 2)
+            } else {
+                (4, 1)
+            }
+        }
+        (_, true) => {
+            if thorough {
+                (4, 2)
+            } else {
+                (3, 2)
+            }
+        }
+        (_, false) => {
+            if thorough {
+                (4, 1)
+            } else {
+                (3, 1)
+            }
+        }
+    }
+}
+
+fn parse_case(case: &Value) -> Option<(usize, In, [DScr; MAXD], Bits)> {
+    let name = case["family"].as_str()?;
+    let fi = FAMS.iter().position(|f| f.name == name)?;
+    let ints = |v: &Value| -> Vec<i64> { v.as_array().map(|a| a.iter().filter_map(|x| x.as_i64()).collect()).unwrap_or_default() };
+    let inp = In { variant: case["variant"].as_u64().unwrap_or(0) as u8, prev: ints(&case["prev"]), items: ints(&case["items"]) };
+    let mut down = [DScr::default(); MAXD];
+    if let Some(a) = case["down"].as_array() {
+        for (d, s) in a.iter().enumerate().take(MAXD) {
+            down[d] = DScr { sticky: s["sticky"].as_bool().unwrap_or(true), ready: Bits::parse(s["ready"].as_str().unwrap_or("")), fin: Bits::parse(s["fin"].as_str().unwrap_or("")) };
+        }
+    }
+    Some((fi, inp, down, Bits::parse(case["inner"].as_str().unwrap_or(""))))
+}
+
 fn main() {
-    let args = vcommon::Args::parse();
+    let args = Args::parse();
     if args.prop == "NONE" {
         return;
     }
-    eprintln!("not implemented yet");
-    std::process::exit(3);
+    if args.prop != "C12" {
+        eprintln!("mon_push serves C12 only");
+        std::process::exit(3);
+    }
+    let mut rep = Reporter::new("C12", args.seed);
+    let nf = FAMS.len();
+    let mut t = Tally { runs: vec![0; nf], nontrivial: vec![0; nf], pend_runs: vec![0; nf], ..Default::default() };
+
+    if let Some(case) = args.replay_case() {
+        match parse_case(&case) {
+            Some((fi, inp, down, inner)) => {
+                run_script(&mut rep, &mut t, fi, &inp, down, inner);
+                H.with(|h| {
+                    let h = h.borrow();
+                    rep.extra("history", json!(h.log.iter().map(|e| format!("{e:?}")).collect::<Vec<_>>()));
+                });
+            }
+            None => {
+                eprintln!("replay descriptor not understood: {case}");
+                std::process::exit(3);
+            }
+        }
+        rep.finish("replay", false);
+        return;
+    }
+
+    let mut rng = args.rng();
+    let miri = args.tier == Tier::Miri;
+
+    // (1) bounded-exhaustive: every item sequence x every answer pattern within the Pending budget
+    let mut case_index = 0usize;
+    let mut leaves_by_fam: Vec<u64> = vec![0; nf];
+    if miri {
+        let inputs: Vec<Vec<i64>> = vec![vec![], vec![2], vec![1, 2], vec![2, 0, 2]];
+        for (fi, fam) in FAMS.iter().enumerate() {
+            for variant in 0..fam.variants {
+                for items in &inputs {
+                    case_index += 1;
+                    if !args.in_shard(case_index) {
+                        continue;
+                    }
+                    let prev = if (fam.prev)(variant) && !items.is_empty() { vec![1, 2] } else { vec![] };
+                    let inp = In { variant, prev, items: items.clone() };
+                    let sticky = case_index % 2 == 0;
+                    leaves_by_fam[fi] += explore(&mut rep, &mut t, fi, &inp, sticky, 1, 1, 6);
+                }
+            }
+        }
+    } else {
+        for (fi, fam) in FAMS.iter().enumerate() {
+            for sticky in [true, false] {
+                if fam.nd == 0 && !sticky {
+                    continue;
+                }
+                let (nmax, k) = bounds(fam, sticky, args.tier);
+                let all = seqs(nmax);
+                for variant in 0..fam.variants {
+                    for s in &all {
+                        let splits = if (fam.prev)(variant) { s.len() } else { 0 };
+                        for cut in 0..=splits {
+                            let inp = In { variant, prev: s[..cut].to_vec(), items: s[cut..].to_vec() };
+                            leaves_by_fam[fi] += explore(&mut rep, &mut t, fi, &inp, sticky, k, k, usize::MAX);
+                        }
+                    }
+                }
+            }
+        }
+    }
+
+    // (2) random long runs: length <= 30, Pending density 0-60 % per run, sticky/fickle per downstream
+    let n_random = args.budget(20_000, 1_000_000, 40);
+    let mut random_nontrivial = 0u64;
+    for r in 0..n_random {
+        if miri && !args.in_shard(r) {
+            continue;
+        }
+        let fi = rng.below(nf);
+        let fam = &FAMS[fi];
+        let variant = rng.below(fam.variants as usize) as u8;
+        let nmax = if miri { 6 } else { 30 };
+        let n = rng.below(nmax + 1);
+        let items: Vec<i64> = (0..n).map(|_| rng.below(3) as i64).collect();
+        let prev: Vec<i64> = if (fam.prev)(variant) { (0..rng.below(6)).map(|_| rng.below(3) as i64).collect() } else { vec![] };
+        let dens = rng.below(61) as u32;
+        let mut down = [DScr::default(); MAXD];
+        for d in down.iter_mut().take(fam.nd) {
+            *d = DScr { sticky: rng.chance(1, 2), ready: Bits::random(&mut rng, dens), fin: Bits::random(&mut rng, dens) };
+            // finalize scripts: keep the number of Pendings moderate so that the run stays short
+            for i in 12..Bits::LEN {
+                if d.fin.get(i) {
+                    d.fin.0[i >> 6] &= !(1 << (i & 63));
+                }
+            }
+        }
+        let inner = if fam.inner { Bits::random(&mut rng, dens) } else { Bits::default() };
+        let inp = In { variant, prev, items };
+        if run_script(&mut rep, &mut t, fi, &inp, down, inner) {
+            random_nontrivial += 1;
+        }
+    }
+
+    // evidence
+    for (fi, fam) in FAMS.iter().enumerate() {
+        rep.count_n(&format!("runs.{}", fam.name), t.runs[fi]);
+        rep.count_n(&format!("nontrivial.{}", fam.name), t.nontrivial[fi]);
+        rep.count_n(&format!("exhaustive_leaves.{}", fam.name), leaves_by_fam[fi]);
+    }
+    rep.count_n("repoll.poll_ready_on_downstream_already_Done(not a violation)", t.repoll_ready_after_done);
+    rep.count_n("repoll.poll_finalize_on_downstream_already_Done(not a violation)", t.repoll_finalize_after_done);
+    rep.count_n("note.poll_ready_on_downstream_after_its_finalize_began(not a violation)", t.ready_polled_after_finalize_began);
+    rep.count_n("note.send_after_older_Done_but_latest_poll_ready_Pending(not a violation)", t.send_with_older_done_but_last_poll_pending);
+    rep.count_n("downstream_pending_answers", t.downstream_pending_answers);
+    rep.count_n("inner_pending_answers", t.inner_pending_answers);
+    rep.count_n("combinator_pending_returns", t.top_pending_returns);
+    rep.count_n("items_delivered", t.items_delivered);
+    rep.count_n("random_runs", n_random as u64);
+    rep.count_n("random_runs_nontrivial", random_nontrivial);
+
+    if !miri {
+        for (fi, fam) in FAMS.iter().enumerate() {
+            rep.require(t.runs[fi] > 0, &format!("family {} never ran", fam.name));
+            if fam.nd > 0 {
+                rep.require(t.nontrivial[fi] >= 200, &format!("family {}: fewer than 200 non-trivial runs", fam.name));
+            }
+        }
+        rep.require(t.repoll_ready_after_done > 0 && t.repoll_finalize_after_done > 0, "no ready_both!-style re-poll of a Done downstream was observed");
+        rep.require(random_nontrivial as usize >= n_random / 4, "fewer than a quarter of the random runs were non-trivial");
+    } else {
+        rep.require(t.runs.iter().sum::<u64>() > 0, "shard ran nothing");
+    }
+    rep.finish(
+        "Bounded-exhaustive: for every combinator/composition in the catalogue, every item sequence over {0,1,2} up to the family's length bound \
+         (4; 3 for some 3-downstream/fickle spaces, see bounds()) x (for stateful operators) every split into previous-epoch/current-epoch items x both downstream \
+         flavours (sticky / fickle) x a DFS over every Done/Pending answer of every downstream poll_ready and poll_finalize and every inner future/stream poll, \
+         with at most k Pendings per downstream and per phase (k = 2 quick / 3 thorough; 1-2 for the fickle multi-downstream spaces) - all combinations across the \
+         2-3 downstreams of fanout/unzip/demux_var/state_push. Random: 20 000 / 10^6 runs, length <= 30, Pending density 0-60 % per run, flavour drawn per downstream. \
+         A run is non-trivial iff some downstream answered Pending between two of its items or answered Pending to poll_finalize.",
+        !miri,
+    );
 }
